@@ -1,7 +1,11 @@
 package drivers
 
 import (
+	"bytes"
+	"crypto/sha1"
 	"crypto/x509"
+	"encoding/asn1"
+	"net/http"
 	"crypto/x509/pkix"
 	"fmt"
 	"math/big"
@@ -25,7 +29,7 @@ type c02Case struct {
 	Chain    int  // 0 same key type + AKI, 1 same type no AKI, 2 other key type + AKI, 3 other key type no AKI, 4 issuer certificate not among the chains
 }
 
-var c02ChainNames = []string{"same-keytype+AKI", "same-keytype-noAKI", "other-keytype+AKI", "other-keytype-noAKI", "issuer-not-in-chain"}
+var c02ChainNames = []string{"same-keytype+AKI", "same-keytype-noAKI", "other-keytype+AKI", "other-keytype-noAKI", "issuer-not-in-chain", "two-candidates-by-name-wrong-one-first"}
 
 func (c c02Case) String() string {
 	var l []string
@@ -98,7 +102,7 @@ func (k *c02Cast) leaf(c c02Case) (*world.Ident, *world.Ident) {
 	if c.Chain == 2 || c.Chain == 3 {
 		o.KeyKind, o.KeyIdx = "rsa", 1
 	}
-	if c.Chain == 1 || c.Chain == 3 {
+	if c.Chain == 1 || c.Chain == 3 || c.Chain == 5 {
 		o.NoAKI = true
 	}
 	l := world.Issue(ca, o)
@@ -128,8 +132,30 @@ func (k *c02Cast) run(c c02Case) (v0, v1, v2 Verdict, hits1, hits2 int) {
 		// no certificate of the presented chains is the issuer: no answer can be authenticated
 		chain = world.Chain(leaf, k.p.OtherCA)
 	}
+	if c.Chain == 5 {
+		// two verified chains (a re-keyed CA: same name, other key), the certificate has no authority key identifier: both
+		// CA certificates are issuer candidates, the one which did not sign comes first. What the first candidate's
+		// request yields says nothing about the second one's.
+		chain = append(world.Chain(leaf, k.p.Sibling, k.p.Root), world.Chain(leaf, ca, k.p.Root)...)
+	}
 	seqWorld(func() {
 		w := NewOW(c.Strict, c.CacheDur, nil, nil)
+		// the responder of the CA knows which issuer it answers for: a request which names another issuer key gets the
+		// OCSP error response "unauthorized" (RFC 6960 2.3), whatever the serial number
+		var spki struct {
+			Alg pkix.AlgorithmIdentifier
+			Key asn1.BitString
+		}
+		asn1.Unmarshal(ca.Cert.RawSubjectPublicKeyInfo, &spki)
+		caKeyHash := sha1.Sum(spki.Key.RightAlign())
+		serve := func(url, label string, body []byte) {
+			w.Net.Routes[url] = &world.Behaviour{Label: label, Fn: func(req *http.Request, reqBody []byte) (int, []byte, error) {
+				if r, err := xocsp.ParseRequest(reqBody); err == nil && !bytes.Equal(r.IssuerKeyHash, caKeyHash[:]) {
+					return 200, xocsp.UnauthorizedErrorResponse, nil
+				}
+				return 200, body, nil
+			}}
+		}
 		// event 0: the certificate is presented while every responder is down (nothing of this may be remembered)
 		for i, b := range c.List {
 			w.Net.Down(c02URL(i, b))
@@ -145,13 +171,13 @@ func (k *c02Cast) run(c c02Case) (v0, v1, v2 Verdict, hits1, hits2 int) {
 			switch c02Behaviours[b] {
 			case "good", "https-good":
 				ans.Status = xocsp.Good
-				w.Net.Serve(url, "good", world.BuildOCSP(ans))
+				serve(url, "good", world.BuildOCSP(ans))
 			case "revoked":
 				ans.Status = xocsp.Revoked
-				w.Net.Serve(url, "revoked", world.BuildOCSP(ans))
+				serve(url, "revoked", world.BuildOCSP(ans))
 			case "unknown":
 				ans.Status = xocsp.Unknown
-				w.Net.Serve(url, "unknown", world.BuildOCSP(ans))
+				serve(url, "unknown", world.BuildOCSP(ans))
 			case "http500":
 				w.Net.Routes[url] = &world.Behaviour{Label: "http500", Status: 500, Body: []byte("internal server error \x00\x01\x02")}
 			case "refused":
@@ -168,11 +194,11 @@ func (k *c02Cast) run(c c02Case) (v0, v1, v2 Verdict, hits1, hits2 int) {
 				// carries a bulky extension
 				ans.Status = xocsp.Revoked
 				ans.Signer, ans.EmbedCert = k.bulkyResponder(ca), true
-				w.Net.Serve(url, "revoked-large", world.BuildOCSP(ans))
+				serve(url, "revoked-large", world.BuildOCSP(ans))
 			case "good-for-other-serial":
 				// an authentic, issuer-signed "good" - about a sibling certificate: no answer for the presented one
 				ans.Status, ans.Serial = xocsp.Good, big.NewInt(778899)
-				w.Net.Serve(url, "good-for-other-serial", world.BuildOCSP(ans))
+				serve(url, "good-for-other-serial", world.BuildOCSP(ans))
 			case "ldap":
 				w.Net.Serve(url, "ldap", []byte("should never be asked"))
 			}
@@ -328,10 +354,10 @@ func RunC02(tier string, args []string) int {
 			}
 		}
 	}
-	chains := []int{0, 1, 2, 3, 4}
+	chains := []int{0, 1, 2, 3, 4, 5}
 	nextUpds := []bool{false, true}
 	if tier != "thorough" {
-		chains = []int{0, 3, 4}
+		chains = []int{0, 3, 4, 5}
 		nextUpds = []bool{false}
 	}
 	for _, l := range lists {
@@ -351,7 +377,7 @@ func RunC02(tier string, args []string) int {
 	cov := fw.Coverage{
 		"evaluations":         evals,
 		"distinct_nontrivial": nontrivial,
-		"rule":                "all responder lists of length 0..3 (quick, 1464 lists) / 0..4 (thorough, 16105 lists) over 11 behaviours x aia_strict(2) x default cache duration {0,10m} x nextUpdate {absent,+1h} (thorough) x chain shape (3 quick / 5 thorough, incl. a chain which does not contain the issuer); each case is a history on a fresh checker: all responders down, lookup; responders as listed, lookup; all down, lookup. Non-trivial = at least one responder named.",
+		"rule":                "all responder lists of length 0..3 (quick, 1464 lists) / 0..4 (thorough, 16105 lists) over 11 behaviours x aia_strict(2) x default cache duration {0,10m} x nextUpdate {absent,+1h} (thorough) x chain shape (4 quick / 6 thorough, incl. a chain which does not contain the issuer and two chains whose CA certificates share a name); each case is a history on a fresh checker: all responders down, lookup; responders as listed, lookup; all down, lookup. Non-trivial = at least one responder named.",
 		"samples":             samples,
 		"outcome_classes":     outcomes.Counts(),
 		"exhaustive":          true,
